@@ -12,7 +12,8 @@ from sa.report import Report
 from sa.check import load_known
 
 rel, fn = sys.argv[1], sys.argv[2]
-props = sys.argv[3:]
+props = [a for a in sys.argv[3:] if not a.startswith("--")]
+test_pkg = next((a.split("=", 1)[1] for a in sys.argv[3:] if a.startswith("--test-pkg=")), None)
 src = open(os.path.join(extract.REPO, rel)).read()
 m = re.search(r"\bfn\s+%s\b" % re.escape(fn), src)
 if not m:
@@ -71,6 +72,11 @@ for n, (pos, op, line) in enumerate(sites):
                     flagged[p] = sorted(set(o["rule"] for o in newv))
             res["flagged"] = flagged
             shutil.rmtree(fdir, ignore_errors=True)
+            if not flagged and test_pkg:
+                # is the survivor at least killed by the repository's own tests of that package?
+                r = subprocess.run(["cargo", "test", "--offline", "-q", "-p", test_pkg], cwd=work, capture_output=True, text=True,
+                                   env=dict(os.environ, CARGO_NET_OFFLINE="true", CARGO_TARGET_DIR=os.path.join(V, ".cache", "target-sweep"), RUST_BACKTRACE="0"))
+                res["tests"] = "pass" if r.returncode == 0 else "FAIL"
         except extract.EngineError:
             res["flagged"] = {"(does not compile)": []}
         finally:
@@ -78,6 +84,6 @@ for n, (pos, op, line) in enumerate(sites):
     finally:
         shutil.rmtree(tmp, ignore_errors=True)
     out.append(res)
-    print("%3d L%-4d %-2s -> %-2s %-9s %s" % (n, res["line"], op, SWAP[op], "REPORTED" if res["flagged"] else "survives", res["text"]), res["flagged"] or "", flush=True)
+    print("%3d L%-4d %-2s -> %-2s %-9s %s" % (n, res["line"], op, SWAP[op], "REPORTED" if res["flagged"] else "survives", res["text"]), res["flagged"] or ("tests:" + res.get("tests", "-")), flush=True)
 json.dump(out, open(os.path.join(V, ".cache", "sweep-%s-%s.json" % (os.path.basename(rel), fn)), "w"), indent=1)
 print("survivors: %d of %d" % (sum(1 for r in out if not r["flagged"]), len(out)))
